@@ -101,6 +101,9 @@ static int check_mem_syntax(const char *mem, const char *base,
     FAIL_IF(term_len == 0);
     const char *term = mem + start;
     const char *star = memchr(term, '*', term_len);
+    // the displacement is written behind the registers ([rax+8], not [8+rax]):
+    // a register term cannot follow the number
+    FAIL_IF(numbers > 0 && (star != NULL || IN_RANGE(term[0], 'a', 'z')));
     if (star != NULL) {
       // scale*index or index*scale, the scale being a single digit
       FAIL_IF(negative || ++scaled > 1 || term_len < 3);
